@@ -373,7 +373,10 @@ FieldViol(d, obs, known) ==
               \* presence of an optional value: the 'not available' rule (C11), or - for an element that is present
               \* or not depending on the message length (type 16 second station) - the element count (C14, C04)
               THEN IF d.prop = "C14" THEN {<<"C14", d.name, "presence">>, <<"C04", d.name, "presence">>}
+                   \* a transmitted integer that is not the 'not available' code but is reported as absent is
+                   \* also an integer that does not equal what was transmitted (C04)
                    ELSE {<<"C11", d.name, "presence">>}
+                        \cup (IF Len(obs) = 0 THEN {<<"C04", d.name, "transmitted value reported as absent">>} ELSE {})
               \* the communication state is made of fixed-position integers (slot parameters): a wrong
               \* value there contradicts C04 as well as C16
               ELSE IF d.prop = "C16" THEN {<<"C16", d.name, "value">>, <<"C04", d.name, "value">>}
